@@ -307,6 +307,16 @@ theorem C16_test_value (e : Name × List Name) (he : e ∈ genTable) (hr : under
   simp only [evalTest, h1]
   rfl
 
+/-- A test's answer is a function of the value alone (its class, its data_type's class): whatever was tested
+before in the same environment — objects long gone, objects of other classes that lived at the same address — the
+answers for `qs` are those of `qs` asked in a fresh environment. -/
+theorem C16_tests_independent_of_history (t : Table) (tests : List (Name × Name)) (redirect : Name)
+    (earlier qs : List (Name × Name × Option Name)) :
+    (evalSeq t tests redirect (earlier ++ qs)).drop earlier.length = evalSeq t tests redirect qs := by
+  induction earlier with
+  | nil => rfl
+  | cons q earlier ih => simpa [evalSeq] using ih
+
 /-- Consequence of the redirection (recorded, see REPORT): the tests named after the attribute classes
 (`Attribute`, `Field`, `PaddingField`, `Constant` and their aliases) are false on every attribute. -/
 theorem C16_attribute_class_tests_false_on_attributes :
